@@ -8,45 +8,39 @@ Import ListNotations.
 Open Scope string_scope."""
 CT = "hcase"
 
-# signatures under which the witnesses of the `_refuted` theorems show up on the implementation
+# signatures under which witnesses of `_refuted` theorems show up on the implementation (the other eight of the
+# first round were repaired by 706f0ce / 9478875 / f23caea and their theorems replaced by the full statements)
 REFUTED = {
-    "C10:public-changed-by-private-init:nsf": "C10_public_unaffected_refuted",
-    "C10:public-changed-by-private-init:covalent_radius": "C10_public_unaffected_refuted",
-    "C10:public-changed-by-private-init:crystal_structure": "C10_public_unaffected_refuted",
-    "C10:public-changed-by-private-init:init_spectral_lines": "C10_public_unaffected_refuted",
-    "C10:private-assignment-while-pending": "C10_assignment_while_pending_refuted",
-    "C10:crystal_structure-dict-shared": "C10_mutable_disjoint_refuted",
     "C10:neutron-default-object-shared": "C10_mutable_disjoint_refuted",
-    "C10:fresh-private-differs:init_spectral_lines": "C10_fresh_private_refuted",
-    "C10:failed-init-poisons-table:nsf": "C10_fresh_private_refuted",
 }
 
 MANIFEST = dict(
     text=("Model: the attribute-protocol machine of C09 (Model/Attr.v) with the public and two private tables, object "
           "identities for per-atom data (allocated per loader write / per loader call / module-level shared) and in-place "
-          "mutation marks; loader scripts regenerated from /repo.  Theorems (Props/C10.v, axiom-free): over every history "
-          "of table creations, the nine inits on every table, reads/hasattr/calculators on every table and imports - as "
-          "long as none of the four listed inits runs while its group is pending and no init runs with its asserted "
-          "prerequisites missing - every public observation is canonical (public_unaffected) and every read of a private "
-          "table initialised for the group is canonical (fresh_private_equals_public), by an invariant over 405 reachable "
-          "abstract states checked closed by vm_compute; in every reachable state an assignment (attribute not pending) or "
-          "a mutation of an owned object on T leaves what every other table serves and the other private table's instance "
-          "dictionaries unchanged (setmut_confined, writes_confined); two tables share an object only if it is module-level "
-          "or a class default, and only for crystal_structure / neutron (mutable_disjoint_partial).  The full-strength "
-          "statements are REFUTED with concrete histories: private init before the public touch (4 loaders), assignment "
-          "while pending, shared crystal_structure dicts, shared class-level Neutron default, init_spectral_lines(T) "
-          "deleting its own units, nsf.init(T) failing its assert after appending its key.  Tie: one fresh interpreter per "
-          "history (interleavings per group up to length 3, the nine inits in random order relative to public touches, "
-          "directed isolation scenarios, random interleavings with one or two private tables incl. assignments and "
-          "mutations); every event's outcome compared with the model inside coqc; direct evaluation of the property "
-          "(public digests, private digests after init, foreign marks, formula(table=T) atoms, pickle round trip) yields "
-          "the failing histories."),
+          "mutation marks; loader scripts regenerated from /repo.  Theorems (Props/C10.v, axiom-free), without side "
+          "conditions since the repairs 706f0ce, 9478875, f23caea: over every history of table creations, the nine inits on "
+          "every table in any order relative to any use of the public table, reads/hasattr/calculators on every table and "
+          "imports, every public observation is canonical (C10_public_unaffected) and every read of a private table "
+          "initialised for the group is canonical (C10_fresh_private_equals_public), by an invariant over 405 reachable "
+          "abstract states checked closed by vm_compute (C10_isolation); in every reachable state ANY assignment on a "
+          "private atom (also while the property is pending) and any mutation of a served object other than the class-level "
+          "default Neutron leaves what every other table serves and the other private table's instance dictionaries "
+          "unchanged (C10_setmut_confined, C10_writes_confined); two tables share an object only if it is the class-level "
+          "default of neutron (C10_mutable_disjoint_partial), for which the full statement is REFUTED "
+          "(C10_mutable_disjoint_refuted = known finding C10:neutron-default-object-shared); the former failing histories "
+          "are proved isolated (C10_former_witnesses_isolated).  Tie: one fresh interpreter per history (interleavings per "
+          "group up to length 3, the nine inits in random order relative to public touches, directed isolation scenarios, "
+          "random interleavings with one or two private tables incl. assignments and mutations, in thorough witnesses of "
+          "the model's transitions); every event's outcome compared with the model inside coqc; direct evaluation of the "
+          "property (public digests, private digests after init, foreign marks, formula(table=T) atoms, pickle round trip) "
+          "yields the failing histories."),
     note=("Modelled, not verified: CPython attribute lookup and object identity; a private table is created together with "
           "mass.init (its isotopes only exist after it); assignments use a sentinel value, so a loader or calculator is "
-          "never run on a table/group that holds a sentinel; formula(table=T) and pickle are checked directly on the "
-          "implementation (their machine is C08's)."),
+          "never run on a table/group that holds a sentinel; sequences of several assignments/mutations are covered by the "
+          "one-step theorems over reachable states plus the differential run, not by a theorem over all histories; "
+          "formula(table=T) and pickle are checked directly on the implementation (their machine is C08's)."),
     technique="Coq proof: invariant over a finite abstract state space (closure checked by vm_compute), one-step frame "
-              "theorems over all reachable states, refutation witnesses; differential run against fresh interpreters",
+              "theorems over all reachable states, one refutation witness; differential run against fresh interpreters",
     ref="DESIGN.md section 7 C10")
 
 
